@@ -120,7 +120,7 @@ func pathTable(c *Ctx, ts tableSpec) ([]string, []string, token.Pos) {
 					for _, x := range a.conds {
 						cs = append(cs, normCond(x))
 					}
-					items = append(items, condBody{conds: simplifyConds(cs), body: strings.Join(renderCalls(a.calls, nil), "; ") + " " + a.exit})
+					items = append(items, condBody{conds: simplifyConds(cs), body: strings.Join(renderCalls(a.calls, a.assigns), "; ") + " " + a.exit})
 				}
 				for _, it := range items {
 					cs := append([]string{}, it.conds...)
